@@ -88,7 +88,12 @@ func Refresh(data map[string]string) error {
 		case *AsyncLogger:
 			base = &config.LoggerBase
 			ref = &config.AppenderRefs
-		default: // for linter
+		case interface{ getLoggerBase() *LoggerBase }:
+			// Loggers that own their appender instead of referencing
+			// one (Console, File, RollingFile, Discard).
+			return config.getLoggerBase(), nil
+		default:
+			return nil, errutil.Explain(nil, "unsupported logger type %T", config)
 		}
 		for _, r := range ref.AppenderRefs {
 			appender, ok := cAppenders[r.Ref]
